@@ -438,6 +438,30 @@ class Driver:
                                                 int(str(x.point)), o)
                         ids.append(x.identity)
                         ids += sorted(f'{q}/{c}' for c, q in kids)[:2]
+                elif t == '@pooled-chain':
+                    # a pooled task that has a parent instance in the graph,
+                    # with that parent (and sometimes a second child of it)
+                    gt = self.case['gt']
+                    if gt.get('sections'):
+                        from vlib.e1.monitors2 import gt_children
+                        from vlib.gen import wfgen as _wf
+                        pooled = sorted(
+                            (i for i in schd.pool.get_tasks()
+                             if i.tdef.name in gt['tasks']),
+                            key=lambda i: i.identity)
+                        self.rng.shuffle(pooled)
+                        for x in pooled:
+                            n, q = x.tdef.name, int(str(x.point))
+                            pars = sorted({
+                                (_wf.atom_point(a, q), a[1])
+                                for ar in _wf.arrows_at(gt, n, q)
+                                for a in _wf.atoms(ar)
+                                if _wf.atom_point(a, q) >= gt['initial']
+                                and (_wf.atom_point(a, q), a[1]) != (q, n)})
+                            if pars:
+                                pq, pn = self.rng.choice(pars)
+                                ids += [f'{pq}/{pn}', x.identity]
+                                break
                 elif not str(t).startswith('@'):
                     ids.append(t)
             if not ids:
